@@ -9,9 +9,12 @@ import (
 	mathrand "math/rand"
 	"net"
 	"net/http"
+	"os"
+	"runtime/debug"
 	"sort"
 	"strings"
 	"sync"
+	"sync/atomic"
 	"testing/synctest"
 	"time"
 
@@ -71,6 +74,7 @@ type Req struct {
 	RespBody      []byte
 	ReadErr       string
 	Aborted       bool
+	Raw           bytes.Buffer // everything the client read off the wire
 	conn          net.Conn
 }
 
@@ -127,6 +131,13 @@ type World struct {
 	nextPort int
 	Hosts    []string // hosts probed by Snapshot().Resolve
 	panics   []string
+	// Latency is the one-way delay of the simulated upstream network. It must
+	// be > 0: with a zero-latency network the upstream's answer can overtake
+	// the gateway's own transport goroutines (net/http closes the incoming
+	// request body as soon as the response starts, while the outgoing write
+	// loop still polls it for EOF), which no real network allows.
+	Latency   time.Duration
+	inTransit atomic.Int32
 }
 
 var preOnce sync.Once
@@ -164,7 +175,7 @@ func NewWorld(r *sim.Run, opts Options) *World {
 	mathrand.Seed(seed)
 	utilrand.Seed(seed)
 	w := &World{R: r, Opts: opts, Clusters: map[string]*ClusterStub{}, Stubs: map[string]*Stub{}, scripts: map[string]*Script{},
-		objs: map[string]*proxyv1alpha1.UpstreamCluster{}, versions: map[string]int{}, start: time.Now(), nextPort: 40000, stopCh: make(chan struct{})}
+		objs: map[string]*proxyv1alpha1.UpstreamCluster{}, versions: map[string]int{}, start: time.Now(), nextPort: 40000, stopCh: make(chan struct{}), Latency: time.Millisecond}
 	w.Sc = sim.NewSched(r)
 	w.Sc.Quiesce = synctest.Wait
 	w.Sc.Enabled = func(string) bool { return false }
@@ -229,6 +240,36 @@ func NewWorld(r *sim.Run, opts Options) *World {
 
 func (w *World) Now() time.Duration { return time.Since(w.start) }
 
+// transit delays the calling stub handler by the network latency.
+func (w *World) transit() {
+	w.inTransit.Add(1)
+	time.Sleep(w.Latency)
+	w.inTransit.Add(-1)
+}
+
+// Quiesce waits until nothing moves any more, letting fake time pass only as
+// far as messages in transit need.
+func (w *World) Quiesce() {
+	w.Sc.Settle()
+	for i := 0; i < 1000 && w.inTransit.Load() > 0; i++ {
+		time.Sleep(w.Latency)
+		w.Sc.Settle()
+	}
+}
+
+// Advance lets fake time pass (at most d; stops early at a sim point).
+func (w *World) Advance(d time.Duration) time.Duration {
+	a := w.Sc.Advance(d)
+	w.Quiesce()
+	return a
+}
+
+// Release releases a parked point and waits for quiescence.
+func (w *World) Release(p *sim.Point, outcome int) {
+	w.Sc.Release(p, outcome)
+	w.Quiesce()
+}
+
 // dialUpstream is installed as clusters.VerifDial (hook H1).
 func (w *World) dialUpstream(ctx context.Context, network, addr string) (net.Conn, error) {
 	w.mu.Lock()
@@ -250,11 +291,18 @@ func (w *World) dialUpstream(ctx context.Context, network, addr string) (net.Con
 	w.nextPort++
 	port := w.nextPort
 	w.mu.Unlock()
-	cli, _, err := s.ln.dial(tcpAddr("10.0.0.1", port))
+	cli0, srv0, err := s.ln.dial(tcpAddr("10.0.0.1", port))
+	cli, _ := cli0.(*addrConn)
+	if srv0 != nil && os.Getenv("KG_DEBUG_CLOSE") != "" {
+		srv0.onClose = func() { fmt.Fprintf(os.Stderr, "CLOSE stub side %s by:\n%s\n", addr, debug.Stack()) }
+	}
 	if err != nil {
 		return nil, &net.OpError{Op: "dial", Net: network, Err: err}
 	}
 	s.conns++
+	if os.Getenv("KG_DEBUG_CLOSE") != "" {
+		cli.onClose = func() { fmt.Fprintf(os.Stderr, "CLOSE upstream conn %s by:\n%s\n", addr, debug.Stack()) }
+	}
 	return cli, nil
 }
 
@@ -336,7 +384,7 @@ func (w *World) Apply(obj *proxyv1alpha1.UpstreamCluster) error {
 		panic("simapi: storing an admitted object failed: " + err.Error())
 	}
 	w.objs[obj.Name] = obj
-	w.Sc.Settle()
+	w.Quiesce()
 	return nil
 }
 
@@ -351,7 +399,7 @@ func (w *World) Delete(name string) {
 	}
 	delete(w.objs, name)
 	w.versions[name]++
-	w.Sc.Settle()
+	w.Quiesce()
 }
 
 func (w *World) Latest(name string) *proxyv1alpha1.UpstreamCluster { return w.objs[name] }
@@ -454,7 +502,7 @@ func (w *World) Send(q *Req) {
 			q.Done = true
 			cli.Close()
 		}()
-		resp, err := http.ReadResponse(bufio.NewReader(cli), nil)
+		resp, err := http.ReadResponse(bufio.NewReader(io.TeeReader(cli, &q.Raw)), nil)
 		if err != nil {
 			q.ReadErr = "read response: " + err.Error()
 			return
@@ -467,7 +515,7 @@ func (w *World) Send(q *Req) {
 			q.ReadErr = "read body: " + err.Error()
 		}
 	}()
-	w.Sc.Settle()
+	w.Quiesce()
 }
 
 // Abort closes the client's connection (client_abort).
@@ -477,7 +525,7 @@ func (w *World) Abort(q *Req) {
 		q.conn.Close()
 		w.R.Fault("client_abort")
 	}
-	w.Sc.Settle()
+	w.Quiesce()
 }
 
 // Stop ends the world's own goroutines as far as possible.
